@@ -75,9 +75,14 @@ def Kw.lower : Kw :=
 /-- a spelling of keyword `k`: letters only, equal to `k` up to ASCII case -/
 def Spells (s : Str) (k : String) : Prop := s ≠ [] ∧ s.all isLetter = true ∧ eqCi s k.toList = true
 
+instance (s : Str) (k : String) : Decidable (Spells s k) := by unfold Spells; infer_instance
+
 def Kw.Valid (K : Kw) : Prop :=
   Spells K.and_ "AND" ∧ Spells K.or_ "OR" ∧ Spells K.not_ "NOT" ∧ Spells K.in_ "IN" ∧
   Spells K.query "QUERY" ∧ Spells K.where_ "WHERE" ∧ Spells K.limit "LIMIT" ∧ Spells K.offset "OFFSET"
+
+instance (K : Kw) : Decidable K.Valid := by unfold Kw.Valid; infer_instance
+instance (S : Sites) : Decidable S.NoPanic := by unfold Sites.NoPanic; infer_instance
 
 def commaJoin : List Str → Str
   | [] => []
@@ -99,6 +104,13 @@ def pr (K : Kw) : Nat → Expr → Str
   | l, .or a b => paren (decide (0 < l)) (pr K 1 a ++ ' ' :: K.or_ ++ ' ' :: pr K 0 b)
 
 def printExpr (K : Kw) (e : Expr) : Str := pr K 0 e
+
+/-- A QUERY command of the fragment event type + WHERE + LIMIT + OFFSET, printed. -/
+def printQuery (K : Kw) (q : Query) : Str :=
+  K.query ++ ' ' :: (q.eventType
+    ++ (match q.whereClause with | some e => ' ' :: (K.where_ ++ ' ' :: pr K 0 e) | none => [])
+    ++ (match q.limit with | some v => ' ' :: (K.limit ++ ' ' :: natDigits v) | none => [])
+    ++ (match q.offset with | some v => ' ' :: (K.offset ++ ' ' :: natDigits v) | none => []))
 
 /-! ## well-formedness -/
 def letterRun (s : Str) : Str := s.takeWhile isLetter
@@ -129,6 +141,14 @@ def WFExpr : Expr → Prop
   | .and a b => WFExpr a ∧ WFExpr b
   | .or a b => WFExpr a ∧ WFExpr b
   | .not a => WFExpr a
+
+/-- the fragment of `Command::Query` covered by `printQuery` -/
+def WFQuery (q : Query) : Prop :=
+  WFIdent q.eventType ∧ (∀ e, q.whereClause = some e → WFExpr e) ∧
+  (∀ v, q.limit = some v → v ≤ Gen.C17.u32Max) ∧ (∀ v, q.offset = some v → v ≤ Gen.C17.u32Max) ∧
+  q.contextId = none ∧ q.since = none ∧ q.timeField = none ∧ q.seqTimeField = none ∧ q.orderBy = none ∧
+  q.returnFields = none ∧ q.linkField = none ∧ q.aggs = none ∧ q.timeBucket = none ∧ q.groupBy = none ∧
+  q.eventSequence = none
 
 /-- fuel the expression needs (nodes + list lengths) -/
 def need : Expr → Nat
